@@ -120,6 +120,7 @@ type Engine struct {
 	envArena                                            []Value
 	publish                                             func([]int8)
 	fsRoot                                              string
+	violatedOnPath                                      bool
 	vfsOnlyPrefixes                                     []string
 	globOrder                                           func([]string) []string
 	methodCache                                         map[methodKey]*ssa.Function
